@@ -303,6 +303,13 @@ func (mpt *MerklePatriciaTrie) SaveChanges(ctx context.Context, ndb NodeDB, incl
 			zap.Error(err))
 		return err
 	case <-doneC:
+		// the writer sends its error before it closes doneC: when both are ready the
+		// select may take this case although the write failed
+		select {
+		case err := <-errC:
+			return err
+		default:
+		}
 	}
 	return nil
 }
